@@ -1,6 +1,8 @@
 """A1 - table consistency: set algebra on the Rule Table against the NumPy fact tables."""
 import ast
 
+from .. import facts
+
 from ..model import AnalysisError, norm_text
 from ..regs import class_lookup, class_mro
 from .common import (
@@ -93,6 +95,13 @@ def lin(ctx, world):
         if ok is None:
             ok2, why2 = body_linear(world, e.prim, e.argnum)
             ok, why = (True, why2) if ok2 else (False, why + "; " + why2)
+        if ok and is_numpy_callable(e.prim):
+            # linear only while certain options are absent: 'same' / def_linear hand the caller's options on as well
+            aff = facts.load("linear_in").get("affine_options", {}).get(base_name(e.prim))
+            sig_ = world.env.signature(e.prim.qual) if aff else None
+            present = [o for o in (aff or []) if sig_ and o in sig_["pos"] + sig_["kwonly"]]
+            if present:
+                ok, why = False, f"{base_name(e.prim)} is linear in its argument only without {present}: the rule re-applies it to the tangent WITH the caller's {' / '.join(present)}, which adds the constant to the tangent (affine)"
         if ok:
             ctx.ob("A1.lin", construct_of(e), True, e.loc, sample=why)
         else:
@@ -225,6 +234,21 @@ def helpers(ctx, world):
     vj = t.by_prim("vjp")
     jv = t.by_prim("jvp")
     used = {}
+    users = {}
+    # methods of ArrayBox written out in the class body that call a repo primitive (x.astype(..) is anp._astype(x, ..)
+    # when x is traced, and at backward time of a higher-order derivative it is)
+    box_methods = {}
+    nb = world.repo.mods.get("autograd.numpy.numpy_boxes")
+    if nb is not None:
+        br = world.repo.resolve(nb, "ArrayBox")
+        if br is not None and br.kind == "repo" and br.okind == "class":
+            for st_ in br.node.body:
+                if isinstance(st_, ast.FunctionDef):
+                    for c_ in ast.walk(st_):
+                        if isinstance(c_, ast.Call):
+                            rr_ = world.repo.resolve_expr(nb, c_.func)
+                            if rr_ is not None and rr_.kind in ("repo", "classattr") and world.repo.is_primitive_ref(rr_):
+                                box_methods.setdefault(st_.name, rr_)
     for e in t.entries:
         if e.spec != "maker" or not world.in_numpy_scope(e):
             continue
@@ -234,8 +258,29 @@ def helpers(ctx, world):
         for x in deep_terms(world.ev, ir.result):
             if x.op == "call":
                 r = callee_ref(x)
+                if r is None and x.fn.op == "attr" and x.fn.name in box_methods and not x.fn.name.startswith("__"):
+                    from .a3_reduce import _value_dependent
+
+                    if _value_dependent(world.ev, x.fn.obj):  # (a method of a raw index / shape array is plain NumPy)
+                        r = box_methods[x.fn.name]
                 if r is not None and r.kind in ("repo", "classattr") and world.repo.is_primitive_ref(r):
                     used.setdefault(r.qual, (r, e))
+                    if e.mode == "vjp":
+                        users.setdefault(r.qual, {})[e.prim_id] = e
+    # helper primitives WITHOUT a forward-mode rule: forward-over-reverse through every rule that calls them raises.
+    # Today's instances are confined to their own family (confirmed by reading); a new user spreads the limitation
+    jvpless_ok = {
+        "autograd.numpy.fft.truncate_pad": ("numpy.fft.", "autograd.numpy.fft."),  # the fft rules and truncate_pad's own rule
+        "autograd.numpy.numpy_wrapper._astype": ("autograd.numpy.numpy_wrapper._astype",),  # the cast's own rule casts back
+    }
+    for q_, us_ in sorted(users.items()):
+        if q_ in jv or q_ not in vj:
+            continue
+        for pid_, e_ in sorted(us_.items()):
+            if pid_.startswith(jvpless_ok.get(q_, ())) and jvpless_ok.get(q_):
+                ctx.ob("A1.helpers", f"jvp-less helper {q_} used by {pid_}", True, e_.loc, nontrivial=False, sample="known loud limitation confined to this family")
+            else:
+                ctx.fail("A1.helpers", f"{q_} <- {pid_}", f"jvpless-helper:{q_}<-{pid_}", e_.loc, f"the reverse-mode rule of {pid_} calls the helper primitive {q_}, which has no forward-mode rule: forward-over-reverse (make_jvp of grad) through {pid_} raises although its first derivative is supported", f"a forward-over-reverse Hessian-vector product through {pid_}")
     for q, (r, e) in sorted(used.items()):
         if q in vj:
             ctx.ob("A1.helpers", q, True, loc_of(r.mod, r.node), sample=f"used by {construct_of(e)}; JVP {'present' if q in jv else 'absent'}")
